@@ -6,6 +6,7 @@
   (scope restoration, budget-prefix law, store monotonicity, …) then only supplies `Closed`.
 -/
 import JS.Eval
+import JS.Proofs.RefString
 namespace JS
 
 /-- `P` is closed under the generator combinators -/
